@@ -257,3 +257,14 @@ Theorem C11_lstat_is_lookup :
     end.
 Proof. exact lstat_is_lookup. Qed.
 Print Assumptions C11_lstat_is_lookup.
+
+(* archives that fail (gzip verification / broken tar stream / tar digest mismatch) are operations of
+   the histories C11_confined_partial quantifies over (PDirF) *)
+Example C11_example_failing_archives :
+  snd (run0 cfg_fixed os_failing) = [false; false; false] /\
+  view_at (fst (run0 cfg_fixed os_failing)) [b "r"; b "w"; b "g"] = VDir 493%N 0%N /\
+  view_at (fst (run0 cfg_fixed os_failing)) [b "r"; b "w"; b "g"; b "d"] = VNone /\
+  view_at (fst (run0 cfg_fixed os_failing)) [b "r"; b "w"; b "t"; b "d"] = VDir 493%N 0%N /\
+  view_at (fst (run0 cfg_fixed os_failing)) [b "r"; b "w"; b "t"; b "d"; b "f"] = VFile (enc 7 420) 0%N /\
+  view_at (fst (run0 cfg_fixed os_failing)) [b "r"; b "w"; b "u"; b "d"] = VDir 448%N 0%N.
+Proof. exact failing_ok. Qed.
